@@ -78,7 +78,7 @@ CHECKS["C18"] = {
         {"re": r"fatal error: (runtime: )?(out of memory|cannot allocate memory)|runtime: out of memory|panic: runtime error: makeslice: len out of range",
          "also": [r"protoio\.\(\*(varintReader|uint32Reader)\)\.ReadMsg"], "identity": "process-crash/alloc-beyond-limit"},
     ],
-    "mandatory_labels": {"all": ["roundtrip/over-limit-frame-not-first", "roundtrip/multi-frame-chunked", "roundtrip/marshalTo-path", "roundtrip/destination-reused-for-a-shorter-frame", "full/message-of-exactly-the-limit", "hostile/bad-frame-not-first",
+    "mandatory_labels": {"all": ["roundtrip/over-limit-frame-not-first", "roundtrip/multi-frame-chunked", "roundtrip/marshalTo-path", "roundtrip/destination-reused-for-a-shorter-frame", "roundtrip/failed-write-between-frames", "full/message-of-exactly-the-limit", "hostile/bad-frame-not-first",
                                  "hostile/hostile-length", "hostile/truncated", "hostile/overlong-varint", "chunking/exhaustive", "arbitrary"]},
 }
 
@@ -460,7 +460,7 @@ _ADDED6 = {
     "C15": "Priority counters over the whole uint64 range (the counter comes from the sender's header); bursts of 20-300 parked items followed by partial drains in both sequential machines; the metrics callback of the simple queue is a schedule point in the controlled schedules.",
     "C16": "The controlled scheduler models sync.RWMutex writer preference (readers arriving after a waiting writer wait behind it); the peer cache scenarios add readers (GetPeersForTopics / GetPeers) next to updater and waiters. Tracker scenarios with two waiters of one group: the list handed to a waiter must read the same after other tasks ran; two updaters changing two peers that share two groups.",
     "C17": "Marshaler histories also present a peer with a heads message it marshalled itself in the period before its last rotation (accepted during the grace period).",
-    "C18": "Round trips also read every frame of a type into the same destination object (the usual receive loop), with frames of length zero after longer ones. `TestVerif_C18_FullPair`: the full writer / reader pair over a packet transport, messages up to exactly the limit.",
+    "C18": "Round trips also read every frame of a type into the same destination object (the usual receive loop), with frames of length zero after longer ones. `TestVerif_C18_FullPair`: the full writer / reader pair over a packet transport, messages up to exactly the limit. Round trips interleave writes of messages that cannot be encoded (they fail and must leave nothing on the stream).",
     "C19": "Odd groups (validly signed invitations with secrets of unusual length) joined and then used by the other requests.",
     "C20": "An older backup refused into an existing account followed by the current export. The genuine archive reaches the restore through readers that split it arbitrarily (half reads, 4096-byte pieces, single bytes). Three quarters of the histories hold one message that makes a log entry of 300 KiB or of more than 1 MiB.",
 }
